@@ -3,6 +3,16 @@
 import json, subprocess, sys
 
 claimed = {
+ "C02": dict(
+   text="Deductive proof over the real code of the reader's per-line mechanisms: parseKeyValueLine (against the format's rune-level key rule kvScan, with soundness and ASCII completeness), splitField, the in-place configuration index of Result (ConfigIndex, ensureConfig, deleteConfig, SetConfig, GetConfig: representation invariant, abstract view, slot reuse without aliasing), Result.Clone (deep equality and freshness of every byte slice), Reader.Reset (queue, error and file configuration wiped, unit metadata kept) and intern — for all inputs, with safety (no panic) and termination obligations on every loop.  Not covered deductively: Scan's line loop as a fold over whole inputs, parseBenchmarkLine/parseUnitLine, Files.",
+   note="Trusted: lib specs of utf8.DecodeRune, unicode.IsSpace/IsUpper/IsLower (exact on ASCII/Latin-1), bufio.NewScanner; interior pointers passed to contract functions are modelled by copy-in/copy-out; bufio.Scanner termination.",
+   technique="contract-based deductive verification (own VC generator over go/ssa, loop invariants, modular calls; z3/cvc5)",
+   design="5/C02"),
+ "C03": dict(
+   text="Deductive proof of the integer paths: benchfmt.atof's fast path (value equals the decimal value of the digits, the overflow guard makes val*10+digit safe — a weakened guard yields the counterexample 9223372036854775809, replayed against strconv), bytesconv.Atoi, ParseInt and ParseUint as the reader uses them (a nil error means the exact mathematical value was returned; no silent wrap-around of uint64/int64).  The multiprecision float slow path (decimal.go, atofHex) is outside deductive reach and is covered only by a bounded differential check against strconv over a stated corpus, labelled bounded.",
+   note="Trusted: float64(int64) is correctly rounded by the language; strconv as the oracle of the bounded stand-in; package variables ErrRange/ErrSyntax are distinct after initialisation (lib/globals.spec).  uint64 is modelled as a mathematical integer with explicit wrap-around in ParseUint/ParseInt.",
+   technique="contract-based deductive verification (own VC generator over go/ssa; z3/cvc5) + bounded differential stand-in for the float slow path",
+   design="5/C03"),
  "C05": dict(
    text="Deductive proof over the real code: contracts on Name.splitGomaxprocs, Name.Parts, Name.Base (and the extractors in benchproc) are discharged for all names of any length, every loop by an inductive invariant; the property lemma verifC05 (base ++ parts covers the name without gap or overlap, Base() is the same base) is proved from those contracts alone.",
    note="Trusted: go/ssa lowering, the gocv VC generator, the SMT solvers, the assumed contract of bytes.IndexByte/bytes.HasPrefix (lib/bytes.spec). Integers are mathematical with proved no-overflow obligations; lengths are bounded by 2^48.",
